@@ -128,6 +128,9 @@ def write(spec, path):
     # Re-order to follow the spec exactly.
     order = [sh['title'] for sh in spec['sheets']]
     wb._sheets.sort(key=lambda s: order.index(s.title) if s.title in order else -1)
+    import os as _os
+    if spec.get('decorate') or _os.environ.get('VERIF_DECORATE'):
+        decorate(wb, spec.get('decorate') or _os.environ.get('VERIF_DECORATE'), path)
     wb.save(path)
     wb.close()
     if spec.get('dimension'):
@@ -186,3 +189,59 @@ def replace_cell_xml(path, sheet_no, addr, raw):
             zout.writestr(item, data)
     shutil.move(tmp, path)
     return found
+
+
+SAFE_NUMBER_FORMATS = ['@', '0%', '0.00', '#,##0.00', '0.00E+00', '00000', '# ?/?', '0.0_);(0.0)', '@', '@']
+
+
+def decorate(wb, seed, path=''):
+    """what a real workbook carries BESIDES the values of its cells: number formats (Text, percent, fixed, scientific - none that makes a
+    number a date), hidden rows and columns, comments, hyperlinks, column widths, frozen panes, an auto filter, a data validation and a
+    conditional format.  Only cells that hold something are touched (nothing here adds a cell record), and none of it changes what a
+    cell holds or what a formula computes - so every expectation of every workload stays what it was."""
+    import random
+    from openpyxl.comments import Comment
+    from openpyxl.formatting.rule import CellIsRule
+    from openpyxl.styles import PatternFill
+    from openpyxl.worksheet.datavalidation import DataValidation
+    rng = random.Random(f'{seed}|{os_basename(path)}')
+    for ws in wb.worksheets:
+        cells = [c for _k, c in sorted(getattr(ws, '_cells', {}).items()) if c.value is not None]
+        if not cells:
+            continue
+        for c in cells:
+            v = c.value
+            plain_number = isinstance(v, (int, float)) and not isinstance(v, bool)
+            formula = isinstance(v, str) and v.startswith('=') and c.data_type == 'f'
+            k = rng.random()
+            if (plain_number or formula) and k < 0.45:
+                c.number_format = rng.choice(SAFE_NUMBER_FORMATS)
+            elif isinstance(v, str) and c.data_type == 's' and k < 0.2:
+                c.number_format = '@'
+            if k > 0.93:
+                c.comment = Comment('a note for the reader: eval(1) is not here', 'someone')
+            if isinstance(v, str) and c.data_type == 's' and not v.startswith('=') and 0.5 < k < 0.56:
+                c.hyperlink = 'https://example.invalid/' + str(rng.randrange(99))
+        rows = sorted({c.row for c in cells})
+        cols = sorted({c.column_letter for c in cells})
+        for r_ in rng.sample(rows, min(len(rows), 1 + len(rows) // 5)):
+            ws.row_dimensions[r_].hidden = rng.random() < 0.6
+            ws.row_dimensions[r_].height = rng.choice([8, 15, 40])
+        for c_ in rng.sample(cols, min(len(cols), 1 + len(cols) // 4)):
+            ws.column_dimensions[c_].hidden = rng.random() < 0.5
+            ws.column_dimensions[c_].width = rng.choice([2, 9, 30])
+        ws.freeze_panes = rng.choice(['A2', 'B2', 'C1'])
+        first, last = cells[0].coordinate, cells[-1].coordinate
+        try:
+            ws.auto_filter.ref = f'{first}:{last}' if cells[0].row <= cells[-1].row and cells[0].column <= cells[-1].column else None
+            dv = DataValidation(type='whole', operator='greaterThan', formula1='-100000')
+            dv.add(cells[0].coordinate)
+            ws.add_data_validation(dv)
+            ws.conditional_formatting.add(f'{first}:{first}', CellIsRule(operator='lessThan', formula=['0'], fill=PatternFill(start_color='FFC7CE', end_color='FFC7CE', fill_type='solid')))
+        except (ValueError, TypeError):
+            pass
+
+
+def os_basename(path):
+    import os
+    return os.path.basename(path or '')
